@@ -154,6 +154,116 @@ ensures %(app)s
     u.expected.append(fn_name)
 
 
+
+DERIVE = "sea-query-derive/src/lib.rs"
+DERIVE_SPEC = r"""
+// ---- #[derive(Iden)] / #[derive(IdenStatic)]: the FAST PATH the macro generates for plain names (sea-query-derive) ----------------------
+// For a name accepted by must_be_valid_iden the generated impl OVERRIDES Iden::prepare: left quote, the name verbatim, right quote.
+// That is the token the general path writes only if the name contains no quote character: must_be_valid_iden must guarantee it.
+pub open spec fn is_quote_char(c: char) -> bool { c == '`' || c == '"' }
+pub open spec fn quote_free(s: Seq<char>) -> bool { forall|i: int| 0 <= i < s.len() ==> !is_quote_char(#[trigger] s[i]) }
+// R-charfn (trusted, std documentation): the ASCII classes
+#[verifier::external_body]
+fn vis_ascii_alphabetic(c: char) -> (r: bool) ensures r == (('a' <= c && c <= 'z') || ('A' <= c && c <= 'Z')) { c.is_ascii_alphabetic() }
+#[verifier::external_body]
+fn vis_ascii_alphanumeric(c: char) -> (r: bool) ensures r == (('a' <= c && c <= 'z') || ('A' <= c && c <= 'Z') || ('0' <= c && c <= '9')) { c.is_ascii_alphanumeric() }
+pub proof fn lemma_quote_free_raw(name: Seq<char>, q: Quote)
+    requires quote_free(name), is_backend_quote(q)
+    ensures dblq(name, q.1 as char) == name, tokq(name, q) == seq![q.0 as char] + name + seq![q.1 as char]
+{
+    assert(!name.contains(q.1 as char)) by { if name.contains(q.1 as char) { let k = choose|k: int| 0 <= k < name.len() && name[k] == q.1 as char; assert(is_quote_char(name[k])); } }
+    lemma_rc_absent_i(name, q.1 as char, seq![q.1 as char, q.1 as char]);
+}
+"""
+
+
+def derive_fast_path(u):
+    """must_be_valid_iden (extracted; R-all: `s.chars().all(|c| P)` is the loop over the characters, `.take(1).all(..)` looks at the first
+    character only) and the `fn prepare` the macro generates inside quote!{..} for names that pass it (R-quote: the tokens between the braces
+    are the function generated; `#sea_query_path::Quote` is Quote, `&mut dyn ::std::fmt::Write` a generic writer)."""
+    src = u.src(DERIVE)
+    it = rl.find_fn(DERIVE, src, None, "must_be_valid_iden")
+    body = it.text
+    code = rl.code_toks(rl.lex(body))
+    preds = []
+    for k, t in enumerate(code):
+        if t.kind == "ident" and t.text == "all" and code[k - 1].text == "." and code[k + 1].text == "(":
+            close = rl.match_close(code, k + 1)
+            inner = body[code[k + 1].end:code[close].start].strip()
+            m = re.match(r"\|c\|\s*(.*)$", inner, re.S)
+            if not m:
+                raise Unsupported("must_be_valid_iden: `.all(..)` without a closure |c| ..")
+            preds.append(m.group(1).strip())
+    norm = rl.norm_ws(body)
+    if len(preds) != 2 or not re.search(r"name\.chars\(\) \.take\(1\) \.all\(.*\) && name\.chars\(\)\.all\(", norm):
+        raise LostAnchor("must_be_valid_iden is no longer `name.chars().take(1).all(P1) && name.chars().all(P2)`")
+    u.spec(DERIVE_SPEC, "ident::derive-fast-path-spec", props=P)
+
+    def pred_fn(nm, ptxt):
+        ptxt = ptxt.replace("c.is_ascii_alphabetic()", "vis_ascii_alphabetic(c)").replace("c.is_ascii_alphanumeric()", "vis_ascii_alphanumeric(c)")
+        if re.search(r"\bc\.[a-z_]+\(", ptxt):
+            raise Unsupported("must_be_valid_iden: character test `%s` has no specification here" % ptxt)
+        return "fn %s(c: char) -> (r: bool)\n    // a character accepted in a plain name is not a quote character of any backend\n    ensures r ==> !is_quote_char(c),\n{ %s }\n" % (nm, ptxt)
+    import hashlib
+    from vlib.gen import indent
+    meta = {"kind": "code", "key": "derive::must_be_valid_iden", "props": P, "src": DERIVE, "src_line": it.line, "gid": 200000, "fname": "must_be_valid_iden", "canary_ok": True}
+    text = (pred_fn("mbvi_first", preds[0]) + pred_fn("mbvi_every", preds[1]) + """// R-all: `name.chars().all(|c| P)` as the loop it abbreviates
+fn mbvi_all(name: &str) -> (r: bool)
+    ensures r ==> quote_free(name@),
+{
+    for c in it: name.chars()
+        invariant it.index@ <= name@.len(), forall|i: int| 0 <= i < it.index@ ==> !is_quote_char(#[trigger] name@[i]),
+    {
+        if !mbvi_every(c) { return false; }
+    }
+    true
+}
+// R-all: `name.chars().take(1).all(|c| P)`: the first character, if there is one (trusted shape; no claim rests on it)
+#[verifier::external_body]
+fn mbvi_take1_all(name: &str) -> (r: bool) { name.chars().take(1).all(mbvi_first) }
+""")
+    u.chunks.append((text, dict(meta, kind="code")))
+    u.chunks.append(("fn must_be_valid_iden(name: &str) -> (r: bool)\n", dict(meta, kind="header")))
+    u.chunks.append((indent("ensures\n    // a name that takes the fast path contains no quote character of any backend\n    r ==> quote_free(name@),", 4) + "\n", dict(meta, kind="contract")))
+    u.chunks.append(("{\n    mbvi_take1_all(name) && mbvi_all(name)\n}\n\n", dict(meta)))
+    u.functions.append({"item": "derive::must_be_valid_iden", "file": DERIVE, "line": it.line, "vpath": "must_be_valid_iden", "sha256": hashlib.sha256(body.encode()).hexdigest(),
+                        "rules": [{"rule": "R-all", "before": "name.chars().take(1).all(P1) && name.chars().all(P2)", "after": "mbvi_take1_all(name) && mbvi_all(name), P1 / P2 as functions"}],
+                        "kind": "fn", "has_contract": True, "props": P, "no_canary": False})
+    u.expected.append("must_be_valid_iden")
+    # ---- the generated prepare: every quote!{ fn prepare .. } of the derive crate must be the same three statements
+    gens = re.findall(r"quote!\s*\{\s*(fn prepare\(&self, s: &mut dyn ::std::fmt::Write, q: #sea_query_path::Quote\)\s*\{.*?\n\s*\})\s*\}", src, re.S)
+    if not gens:
+        raise LostAnchor("sea-query-derive: no generated `fn prepare` found inside quote!{..}")
+    if len(set(rl.norm_ws(g) for g in gens)) != 1:
+        raise Unsupported("sea-query-derive: the generated `fn prepare` bodies differ")
+    guards = len(re.findall(r"let prepare = if (must_be_valid_iden\(table_name\)|is_all_valid) \{\s*quote!", src))
+    if guards != len(gens):
+        raise Unsupported("sea-query-derive: a generated `fn prepare` is not guarded by must_be_valid_iden / is_all_valid")
+    ctx = Ctx(u, "derive::generated-prepare")
+    g = gens[0].replace("#sea_query_path::Quote", "Quote").replace("s: &mut dyn ::std::fmt::Write", "s: &mut W").replace("fn prepare(", "fn prepare<W: VWrite>(")
+    g = r_unit_tail(r_fmt(g, ctx), ctx)
+    ctx.app("R-quote", "quote!{ fn prepare(..) { .. } } (x%d, identical)" % len(gens), "the function the macro generates")
+    header, fbody = g[:g.index("{")], g[g.index("{"):]
+    meta2 = {"kind": "code", "key": "derive::generated-prepare", "props": P, "src": DERIVE, "src_line": src[:src.index(gens[0])].count("\n") + 1, "gid": 200001, "fname": "prepare", "canary_ok": True}
+    u.chunks.append(("pub struct DerivedIden { pub n: String }\nimpl DerivedIden {\n    pub open spec fn name(&self) -> Seq<char> { self.n@ }\n    // `unquoted` of a derived implementor writes the name the macro computed (write!(s, #name))\n    #[verifier::external_body]\n    fn unquoted<W: VWrite>(&self, s: &mut W) ensures final(s).text() == old(s).text() + self.name() { unimplemented!() }\n", dict(meta2, kind="code")))
+    u.chunks.append(("    " + header.strip() + "\n", dict(meta2, kind="header")))
+    spec = ("requires\n    // the macro emits this override only for names accepted by must_be_valid_iden (guard checked syntactically above)\n    quote_free(self.name()), is_backend_quote(q),\n"
+            "ensures " + APP % {"w": "s"} + "\n    // exactly the token the general Iden::prepare writes, hence ONE identifier token decoding to the name\n    " + NEW % {"w": "s"} + " == tokq(self.name(), q),\n    is_ident_tok(" + NEW % {"w": "s"} + ", self.name(), q.0 as char, q.1 as char),")
+    u.chunks.append((indent(spec, 8) + "\n", dict(meta2, kind="contract")))
+    proof = """proof {
+    lemma_quote_free_raw(self.name(), q);
+    lemma_is_ident_tok(self.name(), q.0 as char, q.1 as char);
+    assert(s.text() =~= t0 + (seq![q.0 as char] + self.name() + seq![q.1 as char]));
+    assert(s.text().subrange(t0.len() as int, s.text().len() as int) =~= seq![q.0 as char] + self.name() + seq![q.1 as char]);
+    assert(s.text().subrange(0, t0.len() as int) =~= t0);
+}"""
+    close = fbody.rstrip().rfind("}")
+    u.chunks.append(("    {\n        let ghost t0 = s.text();\n" + fbody[1:close].rstrip() + "\n", dict(meta2)))
+    u.chunks.append((indent(proof, 8) + "\n    }\n}\n\n", dict(meta2, kind="proof:derive")))
+    u.functions.append({"item": "derive::generated-prepare", "file": DERIVE, "line": meta2["src_line"], "vpath": "DerivedIden::prepare", "sha256": hashlib.sha256(gens[0].encode()).hexdigest(),
+                        "rules": ctx.apps, "kind": "fn", "has_contract": True, "props": P, "no_canary": False})
+    u.expected.append("prepare")
+
 PREPARE_PROOF = '''proof {
     lemma_is_ident_tok(self.name(), q.0 as char, q.1 as char);
     assert(s.text() =~= t0 + (seq![q.0 as char] + dblq(self.name(), q.1 as char) + seq![q.1 as char]));
@@ -394,4 +504,9 @@ impl AnyBackend {
         emit_site(u, i, rel, fname, line, text)
     u.emit("}\n")
     u.site_count = len(sites)
+    try:
+        derive_fast_path(u)
+    except (LostAnchor, Unsupported) as e:
+        # the derive crate left the annotations' reach: only this part is undecided (an ASSUMED stub records it)
+        u.stubbed["derive::fast-path"] = {"reason": "%s: %s" % (type(e).__name__, e), "props": list(P), "fname": "must_be_valid_iden"}
     u.emit("} // verus!\nfn main() {}\n")
